@@ -129,15 +129,47 @@ def gen_cases(rng, tier):
             if ec.oracle_calls(mech, [(0, ["int", 2])], budget=3000) is None:
                 continue
         cases.append(case)
+    cases += _spelling_cases(rng, max(12, n // 12))
     return cases
 
 
+_C08_KINDS = ("explode", "substitute", "h_explode")
+
+
+def _c08():
+    from props import C08
+    return C08
+
+
+def _spelling_cases(rng, n):
+    """the deprecated spellings H.explode / H.substitute and their pool versions P.explode / P.substitute with limits
+    exactly on the boundary (0, False, 1) and with the illegal fractional 0: decided by the C08 machinery"""
+    out = []
+    for _ in range(n):
+        h = gens.hist(rng, max_faces=3, style=rng.choice(["unit", "pos"]), frac_p=0.0, min_faces=2)
+        md = rng.choice([["int", 0], ["int", 0], ["bool", False], ["int", 1], ["int", 2], None])
+        pl = None
+        if md is None:
+            pl = rng.choice([["frac", 0, 1], ["float", 0, 1], ["frac", 1, 4]])
+        via_pool = rng.random() < 0.7
+        if rng.random() < 0.5:
+            out.append({"kind": "h_explode", "h": h, "md": md, "pl": pl, "via_pool": via_pool})
+        else:
+            out.append({"kind": "substitute", "h": h, "table": [[h[-1][0], ["hist", [list(x) for x in h]]]],
+                        "coalesce": rng.choice(["replace", "add"]), "md": md, "pl": pl, "via_pool": via_pool})
+    return [c for c in out if _c08()._safe(c)]
+
+
 def impl_run(case):
+    if case.get("kind") in _C08_KINDS:
+        return _c08().impl_run(case)
     answers, ninv = ec.run_mech_impl(case["mech"], [tuple(c) for c in case["calls"]])
     return {"answers": answers, "ninv": ninv}
 
 
 def coq_check(case, r):
+    if case.get("kind") in _C08_KINDS:
+        return _c08().coq_check(case, r)
     if "answers" not in r:
         return "MISMATCH"
     exps = [_cans(a) for a in r["answers"]]
@@ -180,6 +212,8 @@ def _split_rolls_possible(case):
 
 
 def oracle(case):
+    if case.get("kind") in _C08_KINDS:
+        return _c08().oracle(case)
     if _frac_limits(case) and _split_rolls_possible(case):
         return None
     o = ec.oracle_calls(case["mech"], [tuple(c) for c in case["calls"]])
@@ -187,6 +221,8 @@ def oracle(case):
 
 
 def agree(case, r, o):
+    if case.get("kind") in _C08_KINDS:
+        return _c08().agree(case, r, o)
     if "answers" not in r:
         return False
     oo = [{"dist": {Fraction(*k): Fraction(*v) for k, v in a["dist"]}} if "dist" in a else a for a in o["answers"]]
@@ -198,10 +234,14 @@ def _has_call(t):
 
 
 def nontrivial(case, r):
+    if case.get("kind") in _C08_KINDS:
+        return True
     return any(_has_call(t) for _, t in case["mech"]["states"][0]["table"]) and "ok" in (r.get("answers") or [{}])[0]
 
 
 def case_class(case, r):
+    if case.get("kind") in _C08_KINDS:
+        return "spelling:" + case["kind"] + (":pool" if case.get("via_pool") else "") + (":" + r["exc"] if "exc" in r else "")
     lim = case["calls"][0][1]
     a = (r.get("answers") or [{}])[0]
     return "lim:" + ("none" if lim is None else lim[0] + (str(lim[1]) if lim[0] == "int" else "")) + (":" + a["exc"] if "exc" in a else "")
@@ -209,6 +249,8 @@ def case_class(case, r):
 
 def shrink_candidates(case):
     import copy
+    if case.get("kind") in _C08_KINDS:
+        return
     m = case["mech"]
     for i, st in enumerate(m["states"]):
         for j, (k, t) in enumerate(st["table"]):
